@@ -31,7 +31,7 @@ func init() {
 			"continuously, a replica that connects and drops its TCP connection every few ms, a real replica whose TCP path is stalled or cut by a proxy - each alone and next to healthy " +
 			"acknowledging replicas. Oracles: every client call returns without error and the workload finishes (progress watchdog: no call may take > 10s while the fault-free baseline " +
 			"measured in the same run is milliseconds; the witness of a stall is the goroutine dump of the worker); a peer that disconnected abruptly is gone from the reported topology within " +
-			"3x the heartbeat timeout; the healthy replica still converges (C14 oracle). distinct = hash(scenario, peers, workload size); non-trivial = the misbehaving peer was attached while " +
+			"3x the heartbeat timeout; the healthy replica still converges (C14 oracle). Every second scenario instance runs with synchronous logging; client values 0.7-4KB; flapping peers end in bursts of 2-12 sessions; one noread variant is up to date when it attaches and announces compression support; five stalled peers are cut off at the end and must leave the topology. distinct = hash(scenario, peers, workload size); non-trivial = the misbehaving peer was attached while " +
 			">= 1MB was written",
 		Assumptions: []string{"bounded liveness: 10s per call is >= 100x the measured fault-free latency; a stalled workload is reported as violation with the stall point, not proven deadlock",
 			"'eventually dropped from the topology' is judged for peers whose connection ended (cut/flapping); for peers that merely stop reading it is recorded as finding D23b"},
